@@ -80,6 +80,10 @@ class Unknown(Exception):
     pass
 
 
+class _Raised(Exception):
+    """The interpreted function raised (value = normalised exception expression)."""
+
+
 def eval_expr(node: ast.AST, env: Dict[str, Any]) -> Any:
     """Evaluate constants, names from env, comparisons, bool ops, set/tuple displays, `in`."""
     if isinstance(node, ast.Constant):
@@ -95,7 +99,9 @@ def eval_expr(node: ast.AST, env: Dict[str, Any]) -> Any:
         raise Unknown(key)
     if isinstance(node, (ast.Set, ast.Tuple, ast.List)):
         vals = [eval_expr(e, env) for e in node.elts]
-        return set(vals) if isinstance(node, ast.Set) else tuple(vals)
+        if isinstance(node, ast.Set):
+            return set(vals)
+        return list(vals) if isinstance(node, ast.List) else tuple(vals)
     if isinstance(node, ast.UnaryOp):
         v = eval_expr(node.operand, env)
         if isinstance(node.op, ast.Not):
@@ -181,14 +187,57 @@ def eval_expr(node: ast.AST, env: Dict[str, Any]) -> Any:
             raise Unknown(f"{key}: {error}")
     if isinstance(node, ast.Call):
         fn = norm(node.func)
-        if fn in ("int", "bool", "len", "min", "max") and not node.keywords:
+        key = norm(node)
+        if key in env:
+            return env[key]
+        if fn in _PURE_BUILTINS and not node.keywords:
             args = [eval_expr(a, env) for a in node.args]
-            return {"int": int, "bool": bool, "len": len, "min": min, "max": max}[fn](*args)
-        if isinstance(node.func, ast.Attribute) and node.func.attr in ("upper", "lower", "strip") and not node.args:
+            try:
+                return _PURE_BUILTINS[fn](*args)
+            except Exception as error:
+                raise Unknown(f"{key}: {error}")
+        if isinstance(node.func, ast.Attribute) and node.func.attr in _PURE_METHODS and not node.keywords:
             v = eval_expr(node.func.value, env)
-            return getattr(v, node.func.attr)()
+            if not isinstance(v, (str, bytes, bytearray, tuple, list, dict, set, frozenset)):
+                raise Unknown(key)
+            if isinstance(v, (list, dict, set)) and node.func.attr not in ("get", "items", "keys", "values", "count", "index"):
+                raise Unknown(key)
+            args = [eval_expr(a, env) for a in node.args]
+            try:
+                return getattr(v, node.func.attr)(*args)
+            except Exception as error:
+                raise Unknown(f"{key}: {error}")
         raise Unknown(norm(node))
+    if isinstance(node, (ast.GeneratorExp, ast.ListComp, ast.SetComp)):
+        if len(node.generators) != 1:
+            raise Unknown(norm(node))
+        gen = node.generators[0]
+        out = []
+        for item in eval_expr(gen.iter, env):
+            local = dict(env)
+            _bind(gen.target, item, local)
+            if all(eval_expr(c, local) for c in gen.ifs):
+                out.append(eval_expr(node.elt, local))
+        return set(out) if isinstance(node, ast.SetComp) else out
     raise Unknown(norm(node))
+
+
+_PURE_BUILTINS = {"int": int, "bool": bool, "len": len, "min": min, "max": max, "any": any, "all": all, "bytes": bytes, "str": str, "list": list, "tuple": tuple, "sorted": sorted, "isinstance": None}
+_PURE_BUILTINS.pop("isinstance")
+_PURE_METHODS = {"upper", "lower", "strip", "lstrip", "rstrip", "split", "rsplit", "startswith", "endswith", "decode", "encode", "partition", "rpartition", "replace", "get", "items", "keys", "values", "count", "index", "title", "join"}
+
+
+def _bind(target: ast.AST, value: Any, env: Dict[str, Any]) -> None:
+    if isinstance(target, ast.Name):
+        env[target.id] = value
+    elif isinstance(target, (ast.Tuple, ast.List)):
+        vals = list(value)
+        if len(vals) != len(target.elts):
+            raise Unknown("unpack")
+        for t, v in zip(target.elts, vals):
+            _bind(t, v, env)
+    else:
+        raise Unknown(norm(target))
 
 
 def single_return_expr(func: ast.AST) -> ast.AST:
@@ -206,6 +255,12 @@ def eval_function(func: ast.AST, env: Dict[str, Any], depth: int = 0) -> Any:
         def __init__(self, v):
             self.v = v
 
+    class _Brk(Exception):
+        pass
+
+    class _Cont(Exception):
+        pass
+
     def block(stmts):
         for s in stmts:
             if isinstance(s, ast.Return):
@@ -215,12 +270,37 @@ def eval_function(func: ast.AST, env: Dict[str, Any], depth: int = 0) -> Any:
                     block(s.body)
                 else:
                     block(s.orelse)
-            elif isinstance(s, ast.Assign) and len(s.targets) == 1 and isinstance(s.targets[0], ast.Name):
-                local[s.targets[0].id] = eval_expr(s.value, local)
+            elif isinstance(s, ast.Assign) and len(s.targets) == 1:
+                _bind(s.targets[0], eval_expr(s.value, local), local)
+            elif isinstance(s, ast.AnnAssign) and s.value is not None:
+                _bind(s.target, eval_expr(s.value, local), local)
+            elif isinstance(s, ast.AugAssign) and isinstance(s.target, ast.Name) and isinstance(s.op, ast.Add):
+                local[s.target.id] = eval_expr(s.target, local) + eval_expr(s.value, local)
+            elif isinstance(s, ast.For) and not s.orelse:
+                try:
+                    for item in list(eval_expr(s.iter, local)):
+                        _bind(s.target, item, local)
+                        try:
+                            block(s.body)
+                        except _Cont:
+                            continue
+                except _Brk:
+                    pass
+            elif isinstance(s, ast.Break):
+                raise _Brk()
+            elif isinstance(s, ast.Continue):
+                raise _Cont()
             elif isinstance(s, ast.Expr) and isinstance(s.value, ast.Constant):
                 continue
+            elif isinstance(s, ast.Expr) and isinstance(s.value, ast.Call) and isinstance(s.value.func, ast.Attribute) and s.value.func.attr in ("append", "extend") and isinstance(s.value.func.value, ast.Name) and isinstance(local.get(s.value.func.value.id), list):
+                arg = eval_expr(s.value.args[0], local)
+                lst = list(local[s.value.func.value.id])
+                lst.append(arg) if s.value.func.attr == "append" else lst.extend(arg)
+                local[s.value.func.value.id] = lst
             elif isinstance(s, ast.Pass):
                 continue
+            elif isinstance(s, ast.Raise):
+                raise _Raised(norm(s.exc) if s.exc is not None else "raise")
             else:
                 raise Unknown(f"statement {norm(s)[:60]}")
 
